@@ -154,7 +154,12 @@ func famTerm(w *World, c *Case, rng *rand.Rand) {
 			s.GrpcTimeout = "50m"
 		}
 	}
-	for _, s := range specs {
+	for i, s := range specs {
+		switch cause {
+		case "chan-close", "break", "root-cancel", "stop":
+			// tunnel-level causes: one caller uses a context that can never be cancelled
+			s.NeverCancel = i == int(c.Seed%3)
+		}
 		w.Env.StartRPC(w.RootCtx, w.Ch, s)
 	}
 	w.Advance(10 * time.Millisecond)
